@@ -235,6 +235,8 @@ def to_input(field, vals, form):
         # a second container that the conversion documents / the file readers produce for this kind
         if k in NUM:
             return tuple(vals)
+        if k == "union" and len(vals):
+            return [bnp.as_encoded_array(v) for v in vals]           # a list of encoded rows
         if k in ("str", "union"):
             return np.array(vals, dtype="U") if len(vals) else np.array([], dtype="U1")
         if k == "sid":
@@ -1038,7 +1040,7 @@ def construct_case(col, case):
         ok, t = run_guarded(ctx, "construct:empty()", case, lambda: cls_of(sch).empty())
     else:
         cols = [to_input(f, [r[j] for r in rows], form) for j, f in enumerate(sch.fields)]
-        snapshot = [copy.deepcopy(c) if isinstance(c, list) and not any(hasattr(x, "dtype") for x in c) else None for c in cols]
+        snapshot = [copy.deepcopy(c) if isinstance(c, list) and form == "list" else None for c in cols]
         cls = cls_of(sch)
         ok, t = run_guarded(ctx, "construct" + zero, case,
                             (lambda: cls(**dict(zip(sch.names(), cols)))) if case.get("keywords") else (lambda: cls(*cols)))
